@@ -26,10 +26,12 @@ def region_sym(k, texcb_sym=False, rsize=None, regions=None):
     return sym, st
 
 
-def mk_translate(k, ispriv, iswrite, texcb_sym=False, arch=7, regions=None):
+def mk_translate(k, ispriv, iswrite, texcb_sym=False, arch=7, regions=None, mode=None):
     """regions = None: regions 0..k-1 symbolic, MPUIR.DRegion = k.  regions = [..]: MPUIR.DRegion = k, the named
     regions symbolic and every other region below k disabled (DRSR = 0) -- reaches the top of the region file
-    (k = number_of_mpu_regions = 12) without 12 simultaneously symbolic regions"""
+    (k = number_of_mpu_regions = 12) without 12 simultaneously symbolic regions.  mode: processor mode(s) the call
+    is made in (default: svc for a privileged access, usr otherwise); a privileged mode with ispriv = False is the
+    access of an unprivileged load/store (LDRT & co), which must be checked with User permissions"""
     def fn(env):
         from armulator.armv6.arm_exceptions import DataAbortException
         cfg, ov = MC.std_cfg(arch=arch)
@@ -42,7 +44,8 @@ def mk_translate(k, ispriv, iswrite, texcb_sym=False, arch=7, regions=None):
                     st['dracrs[%d]' % r] = 0
         sym['sctlr'] = (1 << 0) | (1 << 17)  # M, BR symbolic
         st['mpuir'] = k << 8
-        m = MC.Machine(env, cfg, ov, thumb=False, mode=('svc' if ispriv else 'usr'), sym_sys=sym, set_sys=st)
+        m = MC.Machine(env, cfg, ov, thumb=False, mode=(mode or ('svc' if ispriv else 'usr')), sym_sys=sym,
+                       set_sys=st)
         va = env.var('va', 32)
         VA = to_bv(va, 32)
         o = pmsa.translate_p(m.pre, VA, z3.BoolVal(ispriv), z3.BoolVal(iswrite), k)
@@ -84,6 +87,13 @@ def units(tier, seed=0):
                 us.append(UnitSpec('translate_p/k%d/%s/%s' % (k, 'priv' if ispriv else 'user', 'w' if iswrite else 'r'),
                                    'vf.c14', 'mk_translate', dict(k=k, ispriv=ispriv, iswrite=iswrite),
                                    max_paths=400000, max_seconds=3000, weight=10 ** k))
+    # unprivileged access made from privileged modes (LDRT/STRT & co): User permissions and no background region
+    for k in ([1] if tier == 'quick' else [1, 2]):
+        for iswrite in (False, True):
+            us.append(UnitSpec('translate_p/k%d/unpriv-access-in-priv-mode/%s' % (k, 'w' if iswrite else 'r'), 'vf.c14',
+                               'mk_translate', dict(k=k, ispriv=False, iswrite=iswrite,
+                                                    mode=['svc', 'sys', 'fiq', 'irq', 'abt', 'und', 'mon']),
+                               max_paths=400000, max_seconds=3000, weight=10 ** k))
     # the whole region file in use (DRegion = number_of_mpu_regions = 12): two symbolic regions at chosen indices,
     # the others disabled -- the top region (11) and the bottom one (0) take part in the priority rule
     sets = [[0, 11], [10, 11]] if tier == 'quick' else [[0, 11], [10, 11], [5, 11], [0, 1], [4, 9], [3, 7, 11]]
@@ -107,7 +117,8 @@ def units(tier, seed=0):
 META = {
     'explanation': 'Bounded symbolic verification of the real ArmV6.translate_address_p / check_permission / '
                    'data_abort / encode_pmsafsr: DRSR (enable, size, 8 subregion-disable bits), DRBAR and DRACR.AP of '
-                   'k regions, the address, SCTLR.{M,BR} symbolic; privilege and direction case-split; outcome '
+                   'k regions, the address, SCTLR.{M,BR} symbolic; privilege and direction case-split (incl. an '
+                   'unprivileged access made in every privileged mode, as LDRT/STRT do); outcome '
                    '(allowed / Background fault / Permission fault), DFSR.{FS,WnR}, DFAR and the frame compared with the '
                    'B5 pseudocode oracle (highest-numbered enabled hit region, subregion rule for sizes >= 256 bytes, '
                    'AP table, background rule).',
